@@ -407,7 +407,9 @@ theorem inv_setPhases {w w' : World} {sid : Nat} {ps : List Char} {R : Mat} (h :
       · cases he; exact ⟨h, rfl⟩
       · split at he
         · cases he
-        · cases he; exact ⟨inv_rebind h _ _ _ _ _, rfl⟩
+        · split at he
+          · cases he
+          · cases he; exact ⟨inv_rebind h _ _ _ _ _, rfl⟩
     · split at he
       · cases he
       · split at he
@@ -460,6 +462,24 @@ theorem inv_copyLike {w w' : World} {sid oid : Nat} {R : Mat} (h : Inv w.s) (hs 
         split at he
         · cases he
         · cases he; exact h1
+
+theorem sync_s {w w' : World} {sid : Nat} {T P : Rat} {ph : Option Char} {R : Mat}
+    (he : w.sync sid T P ph R = .ok w') : w'.s = w.s := by
+  simp only [World.sync] at he
+  split at he
+  · cases he
+  · cases he; rfl
+
+theorem mixInto_s {w w' : World} {sid : Nat} {others : List Char} {P : Rat} {R : Mat}
+    (he : w.mixInto sid others P R = .ok w') : w'.s = w.s := by
+  simp only [World.mixInto] at he
+  split at he
+  · cases he
+  · split at he
+    · cases he
+    · split at he
+      · cases he
+      · cases he; rfl
 
 theorem inv_getElem {w w' : World} {sid : Nat} {d : Dim} {ph : Option Char} {i : Nat} {V : Mat}
     {vid : Option Nat} {x : Rat} (h : Inv w.s) (hs : sid < w.s.nstreams)
@@ -577,6 +597,16 @@ theorem exec_inv {w w' : World} {op : Op} {out : Out} (h : Inv w.s) (he : w.exec
       split at he
       · cases he
       · rename_i w1 hw1; cases he; exact (inv_resetThermo h hw1).1
+    | sync s T P ph R =>
+      simp only [Except.bind, okShape] at he
+      split at he
+      · cases he
+      · rename_i w1 hw1; cases he; rw [sync_s hw1]; exact h
+    | mixInto s others P R =>
+      simp only [Except.bind, okShape] at he
+      split at he
+      · cases he
+      · rename_i w1 hw1; cases he; rw [mixInto_s hw1]; exact h
     | readMol s => cases he; exact h
     | readMass s =>
       cases he
